@@ -505,10 +505,12 @@ func (s *Service) Pay(ctx context.Context, peer boson.Address, paymentThreshold 
 		}
 		return ErrUnknownBeneficary
 	}
-	balance := s.retrieveTraffic(recipient)
 	traffic := s.getTraffic(recipient)
 	traffic.Lock()
 	defer traffic.Unlock()
+	// the unpaid balance is read under the lock that is held while the cheque
+	// is issued and recorded, so that overlapping calls cannot pay it twice.
+	balance := new(big.Int).Sub(traffic.retrieveTraffic, traffic.retrieveChequeTraffic)
 	if balance.Cmp(paymentThreshold) >= 0 {
 		if err := s.issue(ctx, peer, recipient, s.chainAddress, balance, traffic); err != nil {
 			return err
